@@ -165,7 +165,9 @@ def main():
                 if k in raises:
                     raise fault(k)
                 return fbval.get(k, 0)
-        getter.__name__ = "get_f%03d" % j
+        if not (case.get("fb_anon") and j % 2 == 1):
+            getter.__name__ = "get_f%03d" % j
+        # else: a factory-made getter keeps the factory's function name ("getter"): the key comes from the attribute name
         return feedback(getter)
 
     class Shared:
@@ -173,6 +175,9 @@ def main():
     from magicbot import tunable
     robot_holder = [None]
     comp_classes = []
+    # all component classes of the robot may share a user base class that declares a will_reset_to attribute of its own
+    # (a team's `Mechanism` base): what one subclass declares must never reach its siblings
+    root_bases = (type("CompRoot", (), {"zz_root": will_reset_to(5)}),) if case.get("comp_root") else ()
     for i in range(ncomp):
         ns = {}
         basens = {}
@@ -259,9 +264,9 @@ def main():
                 pass
             _idle.__name__ = "idle"
             (basens if spec["inherit"] else ns)["idle"] = sm_state(first=True)(_idle)
-            bases = (type("CompBase%d" % i, (StateMachine,), basens),) if spec["inherit"] else (StateMachine,)
+            bases = (type("CompBase%d" % i, (StateMachine,) + root_bases, basens),) if spec["inherit"] else (StateMachine,) + root_bases
         else:
-            bases = (type("CompBase%d" % i, (), basens),) if spec["inherit"] else ()
+            bases = (type("CompBase%d" % i, root_bases, basens),) if spec["inherit"] else root_bases
         comp_classes.append(type("Comp%d" % i, bases, ns))
 
     # ---- the robot ------------------------------------------------------------
